@@ -44,8 +44,12 @@ def check_out_of_data(ctx, F):
     for b in F.bodies:
         if b.promoted is not None or b.dk != 'AssocFn' or not b.file.endswith('stream/chain.rs') or '::tests::' in b.defpath:
             continue
-        if not any((rules.callee(t) or {}).get('def') == 'backends::ReadWords::read' for _, t in b.calls()):
-            continue
+        direct = any((rules.callee(t) or {}).get('def') == 'backends::ReadWords::read' for _, t in b.calls())
+        if not direct:
+            # a caller of a reading helper: after inlining, its paths contain the helper's read
+            helpers = [F.by_def.get((rules.callee(t) or {}).get('def')) for _, t in b.calls()]
+            if not any(h is not None and h.file.endswith('stream/chain.rs') and any((rules.callee(t2) or {}).get('def') == 'backends::ReadWords::read' for _, t2 in h.calls()) for h in helpers):
+                continue
         targets.append(b)
     n = 0
     for b in targets:
@@ -68,6 +72,14 @@ def check_out_of_data(ctx, F):
                     n_reads += 1
                     if not option_known_some(r, e):
                         bad = 'a path continues (%s) after the read at %s without establishing that a word was returned' % (r.end, e['span'].split('-')[0])
+                # a helper that reads (refill / flush of a head) reports "no word" through its Result: going on requires its Ok
+                h = F.by_def.get(e['callee']) if e['kind'] == 'call' else None
+                if h is not None and h is not b and h.file.endswith('stream/chain.rs') and any((rules.callee(t2) or {}).get('def') == 'backends::ReadWords::read' for _, t2 in h.calls()):
+                    n_reads += 1
+                    res = e['result']
+                    went_on_ok = any(t[0] == 'discr' and ((t[1] == ('try', res) and sym.discr_variant(t, v) == 'Continue') or (t[1] == res and sym.discr_variant(t, v) == 'Ok')) for t, v, _ in r.preds)
+                    if not went_on_ok:
+                        bad = 'a path continues (%s) after %s at %s without the Ok / Continue decision of its result: "no word left" is swallowed and the function goes on with a head that was not refilled' % (r.end, e['callee'].rsplit('::', 1)[-1], e['span'].split('-')[0])
         if bad:
             ctx.bad('R2', role, b.defpath, bad, key=key, loc=rules.loc(b))
         elif n_reads == 0:
